@@ -206,6 +206,8 @@ def check(ctx):
 
     new_key_flag_rule(ctx, ctx.rule("R3", "the new-key flag is a per-path constant tied to the key's origin; new keys are stored before success, reused keys are not rewritten"))
 
+    csr_key_origin_rule(ctx, ctx.rule("R7", "the CSR key has one origin, get_key_pair, whose new-key flag decides the key write: a key produced anywhere else on the way to the CSR (a retry with a fresh key) needs a flag that can change with it"))
+
     R5 = ctx.rule("R5", "a rewritten certificate/key file holds the new content only: opened with truncate(true)|create_new(true), never append (shared with C02.R1) — a longer old chain must not leave a tail that makes the file unparsable")
     from .c02 import open_rule
     open_rule(ctx, R5)
@@ -215,6 +217,41 @@ def check(ctx):
     file_identity_rules(ctx, R6)
 
     no_discarded_results(ctx)
+
+
+CSRNEW = "acme_common::crypto::openssl_certificate::Csr::new"
+KEY_SOURCES = ("acme_common::crypto::openssl_keys::gen_keypair", "acme_common::crypto::openssl_keys::KeyPair::from_pem",
+               "acme_common::crypto::openssl_keys::KeyPair::from_der", "acmed::storage::get_keypair", "acmed::acme_proto::certificate::read_key_pair")
+
+
+def csr_key_origin_rule(ctx, R7):
+    """The flag tested before the key write (R3) describes the key get_key_pair returned. When request_certificate lets a key of
+    another origin reach Csr::new (generated or re-read a second time, e.g. a retry after badPublicKey), a flag whose only
+    origin is get_key_pair's result no longer says whether THAT key is on disk: the certificate would be installed beside
+    the old key. Accepted: one origin (today), or a tested flag that has a second origin of its own (assigned where the
+    key is replaced)."""
+    prog = ctx.prog
+    b = prog.async_body(RC)
+    csrs = b.calls_to(CSRNEW)
+    ctx.floor(R7, "Csr::new call in request_certificate", len(csrs), 1)
+    for c in csrs:
+        a = arg_origins(c, 0)
+        ctx.require(R7, any(x.is_or_polls(GKP) for x in a.calls), c.where(), "the CSR is built with the key pair get_key_pair returned", [RC, "csr-key-not-from-get_key_pair"])
+        others = sorted({x.name for x in a.calls if any(x.is_or_polls(k) for k in KEY_SOURCES)})
+        if not others:
+            continue
+        def is_flag(sl):
+            return any(x.is_or_polls(GKP) for x in sl.calls) and ("tuple", 1) in sl.fields and ("tuple", 0) not in sl.fields
+        def is_pure_flag(sl):
+            return is_flag(sl) and not sl.consts
+        t_all, _ = flag_switches(b, is_flag)
+        t_pure, _ = flag_switches(b, is_pure_flag)
+        stores = b.calls_to(STORE, SETK)
+        # the store must stay guarded when only the flags that can follow the replaced key are counted
+        guarded, _hit = unreachable_without(b, [s.bb for s in stores], removed_edges=[e for e in t_all if e not in t_pure])
+        ctx.require(R7, bool(stores) and guarded and len(t_all) > len(t_pure), c.where(),
+                    "the CSR key can also come from %s, but the key write is decided by get_key_pair's flag alone: a certificate for the replacement key would be installed beside the old key file" % ", ".join(o.rsplit("::", 1)[1] for o in others),
+                    [RC, "csr-key-second-origin"])
 
 
 def no_discarded_results(ctx):
